@@ -3,6 +3,7 @@ From Coq Require Import ZArith List Bool Lia Permutation QArith Lqa Psatz.
 From MV Require Import Geo.WindingDefs Geo.Winding Geo.MeasureDefs Bvh.BvhDefs Bvh.BvhModel.
 Import ListNotations.
 Local Open Scope Z_scope.
+Set Default Timeout 20.
 
 (* ================================================================== 1 == *)
 (* area: floor square roots bracket 2*area of every triangle *)
@@ -32,10 +33,10 @@ Proof.
   destruct a as [[ax ay] az]. remember (psub b (ax, ay, az)) as u. remember (psub c (ax, ay, az)) as v.
   destruct u as [[ux uy] uz], v as [[vx vy] vz].
   unfold dot, cross, perm3, px, py, pz; cbn [fst snd].
-  assert (T : forall p q, Z.abs (p - q) <= Z.abs p + Z.abs q) by (intros; lia).
-  pose proof (T (uy * vz) (uz * vy)). pose proof (T (uz * vx) (ux * vz)). pose proof (T (ux * vy) (uy * vx)).
-  pose proof (abs_mul_le ax _ _ H). pose proof (abs_mul_le ay _ _ H0). pose proof (abs_mul_le az _ _ H1).
-  rewrite (Z.mul_comm _ ax), (Z.mul_comm _ ay), (Z.mul_comm _ az). lia.
+  assert (K : forall x p q, Z.abs ((p - q) * x) <= Z.abs x * (Z.abs p + Z.abs q)).
+  { intros x p q. rewrite Z.abs_mul, Z.mul_comm. apply Z.mul_le_mono_nonneg_l; lia. }
+  eapply Z.le_trans; [apply Z.abs_triangle|]. apply Z.add_le_mono; [|apply K].
+  eapply Z.le_trans; [apply Z.abs_triangle|]. apply Z.add_le_mono; apply K.
 Qed.
 
 Lemma vol_mag_bounds_l tris : Z.abs (volume6 tris) <= vol_mag tris.
@@ -48,25 +49,26 @@ Qed.
 (* an exactly reported volume passes, whatever the power of two *)
 Lemma vol_check_exact_l tris up : 0 <= up -> vol_check tris (up * volume6 tris) up = true.
 Proof.
-  intros H. unfold vol_check. rewrite Z.sub_diag. cbn [Z.abs Z.mul]. apply Z.leb_le.
-  pose proof (vol_mag_bounds_l tris). apply Z.mul_nonneg_nonneg; [|lia]. nia.
+  intros H. unfold vol_check. apply Z.leb_le. rewrite Z.sub_diag. change (Z.abs 0) with 0. rewrite Z.mul_0_l.
+  pose proof (vol_mag_bounds_l tris). pose proof (Z.abs_nonneg (volume6 tris)).
+  assert (0 <= Z.of_nat (length tris) + 16) by lia.
+  repeat apply Z.mul_nonneg_nonneg; lia.
 Qed.
 
 (* ================================================================== 2 == *)
+Ltac xz_solve :=
+  unfold xmin, xmax, xle; cbv beta iota;
+  repeat match goal with
+         | |- context [Z.leb ?p ?q] => let E := fresh "E" in destruct (Z.leb p q) eqn:E; [apply Z.leb_le in E | apply Z.leb_gt in E]; cbv beta iota
+         end; try reflexivity; try (f_equal; lia); try lia.
 Lemma xmin_comm a b : xmin a b = xmin b a.
-Proof. destruct a, b; cbn; try reflexivity. destruct (Z.leb_spec z z0), (Z.leb_spec z0 z); try reflexivity; f_equal; lia. Qed.
+Proof. destruct a, b; xz_solve. Qed.
 Lemma xmax_comm a b : xmax a b = xmax b a.
-Proof. destruct a, b; cbn; try reflexivity. destruct (Z.leb_spec z z0), (Z.leb_spec z0 z); try reflexivity; f_equal; lia. Qed.
+Proof. destruct a, b; xz_solve. Qed.
 Lemma xmin_assoc a b c : xmin a (xmin b c) = xmin (xmin a b) c.
-Proof.
-  destruct a as [|x|], b as [|y|], c as [|z|]; cbn; try reflexivity;
-  repeat match goal with |- context [Z.leb ?p ?q] => destruct (Z.leb_spec p q); cbn end; try reflexivity; try (f_equal; lia); try lia.
-Qed.
+Proof. destruct a as [|x|], b as [|y|], c as [|z|]; xz_solve. Qed.
 Lemma xmax_assoc a b c : xmax a (xmax b c) = xmax (xmax a b) c.
-Proof.
-  destruct a as [|x|], b as [|y|], c as [|z|]; cbn; try reflexivity;
-  repeat match goal with |- context [Z.leb ?p ?q] => destruct (Z.leb_spec p q); cbn end; try reflexivity; try (f_equal; lia); try lia.
-Qed.
+Proof. destruct a as [|x|], b as [|y|], c as [|z|]; xz_solve. Qed.
 Lemma xmin_pinf a : xmin PInf a = a.  Proof. destruct a; reflexivity. Qed.
 Lemma xmax_ninf a : xmax NInf a = a.  Proof. destruct a; reflexivity. Qed.
 
@@ -81,9 +83,9 @@ Proof. destruct a, b, c; cbn; try reflexivity. f_equal; apply xmax_assoc. Qed.
 (* +inf / -inf are identities on everything a reduction can produce from
    them (never a tombstone by itself: cmin id VNaN = id) *)
 Lemma cmin_id_l a : a <> VNaN -> cmin id_min a = a.
-Proof. destruct a; [congruence|]. intros _. cbn. now rewrite !xmin_pinf. Qed.
+Proof. destruct a; [congruence|]. intros _. cbn. now rewrite ?xmin_pinf. Qed.
 Lemma cmax_id_l a : a <> VNaN -> cmax id_max a = a.
-Proof. destruct a; [congruence|]. intros _. cbn. now rewrite !xmax_ninf. Qed.
+Proof. destruct a; [congruence|]. intros _. cbn. now rewrite ?xmax_ninf. Qed.
 Lemma cmin_id_nan : cmin id_min VNaN = id_min.  Proof. reflexivity. Qed.
 
 Section Reduce.
@@ -118,7 +120,6 @@ Section Reduce.
   Lemma fold_perm l1 l2 : Permutation l1 l2 -> fold_right f init l1 = fold_right f init l2.
   Proof.
     induction 1; cbn; try congruence.
-    rewrite !f_assoc, (f_comm y x). reflexivity.
   Qed.
 
   (* any reduction tree over any permutation of the vertices, with any number
@@ -139,11 +140,11 @@ Lemma tight_max_not_nan vs : tight_max vs <> VNaN.
 Proof. induction vs as [|v l IH]; cbn; [discriminate|]. fold (tight_max l). destruct v, (tight_max l); cbn; congruence. Qed.
 
 Lemma xle_refl a : xle a a = true.
-Proof. destruct a; cbn; try reflexivity. apply Z.leb_refl. Qed.
+Proof. destruct a; cbn -[Z.leb]; try reflexivity. apply Z.leb_refl. Qed.
 Lemma xle_trans a b c : xle a b = true -> xle b c = true -> xle a c = true.
-Proof. destruct a, b, c; cbn; try congruence; rewrite !Z.leb_le; lia. Qed.
+Proof. destruct a, b, c; cbn -[Z.leb]; try congruence; rewrite !Z.leb_le; lia. Qed.
 Lemma xmin_le_l a b : xle (xmin a b) a = true.
-Proof. unfold xmin. destruct (xle a b) eqn:E; [apply xle_refl|]. destruct a, b; cbn in *; try congruence. apply Z.leb_le. apply Z.leb_gt in E. lia. Qed.
+Proof. unfold xmin. destruct (xle a b) eqn:E; [apply xle_refl|]. destruct a, b; cbn -[Z.leb] in *; try congruence. apply Z.leb_le. apply Z.leb_gt in E. lia. Qed.
 Lemma xmin_le_r a b : xle (xmin a b) b = true.
 Proof. rewrite xmin_comm. apply xmin_le_l. Qed.
 Lemma xmax_ge_l a b : xle a (xmax a b) = true.
@@ -164,7 +165,7 @@ Proof.
   - subst v. pose proof (tight_min_not_nan l). destruct (tight_min l) as [|a b c]; [congruence|].
     cbn. repeat split; apply xmin_le_l.
   - specialize (IH I). destruct (tight_min l) as [|a b c]; [destruct IH|]. destruct v as [|p q r]; [exact IH|].
-    cbn in *. destruct IH as (A & B & C). repeat split; eapply xle_trans; try apply xmin_le_r; assumption.
+    cbn in *. destruct IH as (A & B & C). repeat split; (eapply xle_trans; [apply xmin_le_r|eassumption]).
 Qed.
 Lemma tight_max_upper vs x y z : In (V x y z) vs -> vle (V x y z) (tight_max vs).
 Proof.
@@ -172,7 +173,7 @@ Proof.
   - subst v. pose proof (tight_max_not_nan l). destruct (tight_max l) as [|a b c]; [congruence|].
     cbn. repeat split; apply xmax_ge_l.
   - specialize (IH I). destruct (tight_max l) as [|a b c]; [destruct IH|]. destruct v as [|p q r]; [exact IH|].
-    cbn in *. destruct IH as (A & B & C). repeat split; eapply xle_trans; try apply xmax_ge_r; assumption.
+    cbn in *. destruct IH as (A & B & C). repeat split; (eapply xle_trans; [eassumption|apply xmax_ge_r]).
 Qed.
 
 (* each face of the box is touched by a (non-tombstone) vertex, or is still
@@ -207,3 +208,198 @@ Proof.
     + right. exists p, q. left. reflexivity.
     + destruct IH as [IH|(y & z & I)]; [left; exact IH|right; exists y, z; right; exact I].
 Qed.
+
+(* ================================================================== 3 == *)
+(* one coordinate: rational points P/w in [lo1,hi1] and Q/w' in [lo2,hi2]
+   closer than L force the intervals, one inflated by L, to overlap *)
+Lemma close_1d w w' L lo1 hi1 lo2 hi2 P Q :
+  0 < w -> 0 < w' -> 0 <= L ->
+  w * lo1 <= P <= w * hi1 -> w' * lo2 <= Q <= w' * hi2 ->
+  (w' * P - w * Q) * (w' * P - w * Q) < (L * (w * w')) * (L * (w * w')) ->
+  lo1 <= hi2 + L /\ lo2 - L <= hi1.
+Proof.
+  intros Hw Hw' HL [A1 A2] [B1 B2] D.
+  assert (W : 0 < w * w') by nia.
+  assert (S : forall d, 0 <= L * (w * w') <= d -> (L * (w * w')) * (L * (w * w')) <= d * d) by (intros; nia).
+  split.
+  - destruct (Z_le_gt_dec lo1 (hi2 + L)) as [|G]; [assumption|exfalso].
+    assert (L * (w * w') <= w' * P - w * Q) by nia.
+    specialize (S (w' * P - w * Q)). nia.
+  - destruct (Z_le_gt_dec (lo2 - L) hi1) as [|G]; [assumption|exfalso].
+    assert (L * (w * w') <= w * Q - w' * P) by nia.
+    specialize (S (w * Q - w' * P)). nia.
+Qed.
+
+Definition hdiff (P : pt) (w : Z) (Q : pt) (w' : Z) : pt :=
+  (w' * px P - w * px Q, w' * py P - w * py Q, w' * pz P - w * pz Q).
+
+Lemma sq_le_norm2 x y z : x * x <= x * x + y * y + z * z /\ y * y <= x * x + y * y + z * z /\ z * z <= x * x + y * y + z * z.
+Proof. nia. Qed.
+
+(* if the triangles' boxes b1, b2 contain points P/w and Q/w' closer than L,
+   box b2 inflated by L overlaps b1: the collider query of MinGap reports the pair *)
+Lemma mingap_candidates_complete_l b1 b2 P w Q w' L :
+  0 < w -> 0 < w' -> 0 <= L ->
+  in_box_h b1 P w -> in_box_h b2 Q w' ->
+  norm2 (hdiff P w Q w') < (L * (w * w')) * (L * (w * w')) ->
+  overlap b1 (inflate b2 L) = true.
+Proof.
+  intros Hw Hw' HL (X1 & Y1 & Z1) (X2 & Y2 & Z2) D.
+  unfold norm2, dot, hdiff in D; cbn [px py pz fst snd] in D.
+  destruct (sq_le_norm2 (w' * px P - w * px Q) (w' * py P - w * py Q) (w' * pz P - w * pz Q)) as (SX & SY & SZ).
+  destruct (close_1d w w' L _ _ _ _ _ _ Hw Hw' HL X1 X2) as [ax bx]; [lia|].
+  destruct (close_1d w w' L _ _ _ _ _ _ Hw Hw' HL Y1 Y2) as [ay by_]; [lia|].
+  destruct (close_1d w w' L _ _ _ _ _ _ Hw Hw' HL Z1 Z2) as [az bz]; [lia|].
+  unfold overlap, inflate; cbn [bminx bminy bminz bmaxx bmaxy bmaxz].
+  rewrite !andb_true_iff, !Z.geb_leb, !Z.leb_le. lia.
+Qed.
+
+(* points of a triangle lie in its box *)
+Lemma comb1 l1 l2 l3 a b c w :
+  0 <= l1 -> 0 <= l2 -> 0 <= l3 -> l1 + l2 + l3 = w ->
+  w * min3 a b c <= l1 * a + l2 * b + l3 * c <= w * max3 a b c.
+Proof.
+  intros. subst w. unfold min3, max3.
+  assert (Z.min a (Z.min b c) <= a /\ Z.min a (Z.min b c) <= b /\ Z.min a (Z.min b c) <= c) by lia.
+  assert (a <= Z.max a (Z.max b c) /\ b <= Z.max a (Z.max b c) /\ c <= Z.max a (Z.max b c)) by lia.
+  generalize dependent (Z.min a (Z.min b c)). generalize dependent (Z.max a (Z.max b c)). intros; nia.
+Qed.
+
+Lemma comb_in_box t l w : weights_ok l w -> in_box_h (tri_box t) (comb t l) w.
+Proof.
+  destruct t as [[a b] c]. intros (A & B & C & S & W).
+  unfold in_box_h, tri_box, comb; cbn [bminx bminy bminz bmaxx bmaxy bmaxz px py pz fst snd].
+  repeat split; apply comb1; assumption.
+Qed.
+
+(* the squared box gap is a lower bound of the squared distance (pruning rule
+   of the brute-force minimum) *)
+Lemma gap_1d w w' lo1 hi1 lo2 hi2 P Q :
+  0 < w -> 0 < w' -> w * lo1 <= P <= w * hi1 -> w' * lo2 <= Q <= w' * hi2 ->
+  (gap1 lo1 hi1 lo2 hi2 * (w * w')) * (gap1 lo1 hi1 lo2 hi2 * (w * w')) <= (w' * P - w * Q) * (w' * P - w * Q).
+Proof.
+  intros Hw Hw' [A1 A2] [B1 B2]. unfold gap1.
+  assert (W : 0 < w * w') by nia.
+  assert (SQ : forall g d, 0 <= g <= d -> g * g <= d * d) by (intros; nia).
+  destruct (Z_lt_le_dec 0 (lo1 - hi2)) as [G1|G1]; destruct (Z_lt_le_dec 0 (lo2 - hi1)) as [G2|G2].
+  - exfalso. nia.
+  - replace (Z.max 0 (Z.max (lo2 - hi1) (lo1 - hi2))) with (lo1 - hi2) by lia.
+    apply SQ. split; [nia|]. 
+    assert (w' * (w * lo1) <= w' * P) by (apply Z.mul_le_mono_nonneg_l; lia).
+    assert (w * Q <= w * (w' * hi2)) by (apply Z.mul_le_mono_nonneg_l; lia).
+    replace ((lo1 - hi2) * (w * w')) with (w' * (w * lo1) - w * (w' * hi2)) by ring. lia.
+  - replace (Z.max 0 (Z.max (lo2 - hi1) (lo1 - hi2))) with (lo2 - hi1) by lia.
+    replace ((w' * P - w * Q) * (w' * P - w * Q)) with ((w * Q - w' * P) * (w * Q - w' * P)) by ring.
+    apply SQ. split; [nia|].
+    assert (w' * P <= w' * (w * hi1)) by (apply Z.mul_le_mono_nonneg_l; lia).
+    assert (w * (w' * lo2) <= w * Q) by (apply Z.mul_le_mono_nonneg_l; lia).
+    replace ((lo2 - hi1) * (w * w')) with (w * (w' * lo2) - w' * (w * hi1)) by ring. lia.
+  - replace (Z.max 0 (Z.max (lo2 - hi1) (lo1 - hi2))) with 0 by lia. rewrite !Z.mul_0_l. apply Z.square_nonneg.
+Qed.
+
+Lemma box_gap2_lower_l b1 b2 P w Q w' :
+  0 < w -> 0 < w' -> in_box_h b1 P w -> in_box_h b2 Q w' ->
+  box_gap2 b1 b2 * ((w * w') * (w * w')) <= norm2 (hdiff P w Q w').
+Proof.
+  intros Hw Hw' (X1 & Y1 & Z1) (X2 & Y2 & Z2).
+  pose proof (gap_1d w w' _ _ _ _ _ _ Hw Hw' X1 X2).
+  pose proof (gap_1d w w' _ _ _ _ _ _ Hw Hw' Y1 Y2).
+  pose proof (gap_1d w w' _ _ _ _ _ _ Hw Hw' Z1 Z2).
+  unfold box_gap2, norm2, dot, hdiff; cbn [px py pz fst snd]. 
+  generalize dependent (gap1 (bminx b1) (bmaxx b1) (bminx b2) (bmaxx b2)).
+  generalize dependent (gap1 (bminy b1) (bmaxy b1) (bminy b2) (bmaxy b2)).
+  generalize dependent (gap1 (bminz b1) (bmaxz b1) (bminz b2) (bmaxz b2)). intros. nia.
+Qed.
+
+(* ---- exact triangle distance ------------------------------------------- *)
+Local Open Scope Q_scope.
+
+Lemma qdot_self_nonneg v : 0 <= qdot v v.
+Proof. destruct v as [[x y] z]. unfold qdot, qx, qy, qz; cbn [fst snd]. nra. Qed.
+Lemma qd2_nonneg a b : 0 <= qd2 a b.
+Proof. apply qdot_self_nonneg. Qed.
+
+Lemma bvalidb_ok w : bvalidb w = true -> bvalid w.
+Proof. unfold bvalidb, bvalid. rewrite !andb_true_iff, !Qle_bool_iff, Qeq_bool_iff. tauto. Qed.
+
+Lemma d2_identity (a1 a2 a3 b1 b2 b3 x y : qpt) (l1 l2 l3 m1 m2 m3 : Q) :
+  qd2 (bpoint (a1, a2, a3) (l1, l2, l3)) (bpoint (b1, b2, b3) (m1, m2, m3)) ==
+  qd2 x y
+  + 2 * ((l1 * qdot (qsub x y) (qsub a1 x) + l2 * qdot (qsub x y) (qsub a2 x) + l3 * qdot (qsub x y) (qsub a3 x)
+          + (l1 + l2 + l3 - 1) * qdot (qsub x y) x)
+       - (m1 * qdot (qsub x y) (qsub b1 y) + m2 * qdot (qsub x y) (qsub b2 y) + m3 * qdot (qsub x y) (qsub b3 y)
+          + (m1 + m2 + m3 - 1) * qdot (qsub x y) y))
+  + qd2 (qsub (bpoint (a1, a2, a3) (l1, l2, l3)) (bpoint (b1, b2, b3) (m1, m2, m3))) (qsub x y).
+Proof.
+  destruct a1 as [[a1x a1y] a1z], a2 as [[a2x a2y] a2z], a3 as [[a3x a3y] a3z],
+           b1 as [[b1x b1y] b1z], b2 as [[b2x b2y] b2z], b3 as [[b3x b3y] b3z],
+           x as [[xx xy] xz], y as [[yx yy] yz].
+  unfold qd2, qdot, qsub, bpoint, qx, qy, qz; cbn [fst snd]. ring.
+Qed.
+
+(* first-order optimality: the certificate makes (x,y) a global minimiser *)
+Lemma cert_lower t1 t2 c u1 u2 :
+  certificate t1 t2 c = true -> bvalid u1 -> bvalid u2 ->
+  qd2 (bpoint t1 (fst c)) (bpoint t2 (snd c)) <= qd2 (bpoint t1 u1) (bpoint t2 u2).
+Proof.
+  destruct t1 as [[a1 a2] a3], t2 as [[b1 b2] b3], u1 as [[l1 l2] l3], u2 as [[m1 m2] m3].
+  unfold certificate. set (x := bpoint (a1, a2, a3) (fst c)). set (y := bpoint (b1, b2, b3) (snd c)).
+  cbn [forallb idx3 tv]. rewrite !andb_true_iff, !Qle_bool_iff.
+  intros [(S1 & S2 & S3 & _) (R1 & R2 & R3 & _)] (L1 & L2 & L3 & LS) (M1 & M2 & M3 & MS).
+  unfold qx, qy, qz in L1, L2, L3, LS, M1, M2, M3, MS; cbn [fst snd] in L1, L2, L3, LS, M1, M2, M3, MS.
+  rewrite (d2_identity a1 a2 a3 b1 b2 b3 x y l1 l2 l3 m1 m2 m3).
+  pose proof (qd2_nonneg (qsub (bpoint (a1, a2, a3) (l1, l2, l3)) (bpoint (b1, b2, b3) (m1, m2, m3))) (qsub x y)) as N.
+  assert (ZL : (l1 + l2 + l3 - 1) * qdot (qsub x y) x == 0) by (rewrite LS; ring).
+  assert (ZM : (m1 + m2 + m3 - 1) * qdot (qsub x y) y == 0) by (rewrite MS; ring).
+  pose proof (Qmult_le_0_compat _ _ L1 S1) as P1. pose proof (Qmult_le_0_compat _ _ L2 S2) as P2.
+  pose proof (Qmult_le_0_compat _ _ L3 S3) as P3.
+  assert (Q1 : m1 * qdot (qsub x y) (qsub b1 y) <= 0) by (rewrite <- (Qmult_0_r m1); apply Qmult_le_l' || nra).
+  assert (Q2 : m2 * qdot (qsub x y) (qsub b2 y) <= 0) by nra.
+  assert (Q3 : m3 * qdot (qsub x y) (qsub b3 y) <= 0) by nra.
+  revert N ZL ZM P1 P2 P3 Q1 Q2 Q3.
+  generalize (qd2 (qsub (bpoint (a1, a2, a3) (l1, l2, l3)) (bpoint (b1, b2, b3) (m1, m2, m3))) (qsub x y)).
+  generalize (qd2 x y).
+  generalize ((l1 + l2 + l3 - 1) * qdot (qsub x y) x) ((m1 + m2 + m3 - 1) * qdot (qsub x y) y).
+  generalize (l1 * qdot (qsub x y) (qsub a1 x)) (l2 * qdot (qsub x y) (qsub a2 x)) (l3 * qdot (qsub x y) (qsub a3 x)).
+  generalize (m1 * qdot (qsub x y) (qsub b1 y)) (m2 * qdot (qsub x y) (qsub b2 y)) (m3 * qdot (qsub x y) (qsub b3 y)).
+  intros. lra.
+Qed.
+
+Lemma best_inv t1 t2 cs acc :
+  fst acc == qd2 (bpoint t1 (fst (snd acc))) (bpoint t2 (snd (snd acc))) ->
+  fst (best t1 t2 cs acc) == qd2 (bpoint t1 (fst (snd (best t1 t2 cs acc)))) (bpoint t2 (snd (snd (best t1 t2 cs acc)))).
+Proof.
+  revert acc. induction cs as [|c cs IH]; intros acc H; [exact H|].
+  cbn [best]. destruct (Qle_bool (fst acc) (cand_d2 t1 t2 c)); apply IH; [exact H|].
+  cbn [fst snd]. unfold cand_d2. apply Qred_correct.
+Qed.
+
+(* tri_dist2 returns the exact squared distance: it is attained by a pair of
+   points of the two triangles and no pair of points is closer *)
+Lemma tri_dist2_exact_l t1 t2 d w1 w2 :
+  tri_dist2 t1 t2 = Some (d, (w1, w2)) ->
+  bvalid w1 /\ bvalid w2 /\ d == qd2 (bpoint t1 w1) (bpoint t2 w2) /\
+  forall u1 u2, bvalid u1 -> bvalid u2 -> d <= qd2 (bpoint t1 u1) (bpoint t2 u2).
+Proof.
+  unfold tri_dist2.
+  set (c0 := (on_vert 0, on_vert 0)).
+  pose proof (best_inv t1 t2 (candidates t1 t2) (cand_d2 t1 t2 c0, c0)) as B.
+  specialize (B (Qred_correct _)).
+  destruct (best t1 t2 (candidates t1 t2) (cand_d2 t1 t2 c0, c0)) as [d' [w1' w2']].
+  cbn [fst snd] in *.
+  destruct (bvalidb w1' && bvalidb w2' && certificate t1 t2 (w1', w2')) eqn:E; [|discriminate].
+  intros H; injection H as -> -> ->.
+  rewrite !andb_true_iff in E. destruct E as [[V1 V2] C].
+  split; [apply bvalidb_ok; assumption|]. split; [apply bvalidb_ok; assumption|]. split; [exact B|].
+  intros u1 u2 U1 U2. rewrite B. apply (cert_lower t1 t2 (w1, w2) u1 u2 C U1 U2).
+Qed.
+
+Lemma tri_dist2_zero_l t1 t2 d w u1 u2 :
+  tri_dist2 t1 t2 = Some (d, w) -> bvalid u1 -> bvalid u2 ->
+  qd2 (bpoint t1 u1) (bpoint t2 u2) == 0 -> d == 0.
+Proof.
+  destruct w as [w1 w2]. intros H U1 U2 Z.
+  destruct (tri_dist2_exact_l _ _ _ _ _ H) as (_ & _ & E & L).
+  specialize (L u1 u2 U1 U2). rewrite Z in L. pose proof (qd2_nonneg (bpoint t1 w1) (bpoint t2 w2)). rewrite <- E in H0. lra.
+Qed.
+Local Close Scope Q_scope.
